@@ -118,8 +118,8 @@ theorem rFact_R_of {s s' : State} (ex : Nat → Prop) (hg : GFact s.core) (hn : 
     (hsent : s'.sent = s.sent) (hhead : s'.head = s.head)
     (hdata : ∀ i x, ¬ ex x → x ∈ s.lr.data i → x ∈ s'.lr.data i)
     {u r' : Nat} {q : RPC} (hr : ¬ ex r') (hcl : ∀ n, s.resv n = some u → ¬ ex n)
-    (h : rFact s.core u r' q) : rFact s'.core u r' q :=
-  rFact_ext (c := s.core) (c' := s'.core) ex hg hn hmaps hsent hhead hdata hr hcl h
+    (h : rFact s.core u r' q) (hpd : s'.pdropped = s.pdropped := by rfl) : rFact s'.core u r' q :=
+  rFact_ext (c := s.core) (c' := s'.core) ex hg hn hmaps hsent hhead hpd hdata hr hcl h
 
 theorem safe_actR1 {s s' : State} {t r : Nat} {p : RPC} (ha : InvA s) (hl : LRI s) (hs : Safe s)
     (hpc : s.pc t = .rcv r p) (h : actR s t r p = some s')
@@ -177,7 +177,8 @@ theorem safe_actR1 {s s' : State} {t r : Nat} {p : RPC} (ha : InvA s) (hl : LRI 
   case rDrop x c =>
     cases h; simp only [rFact] at hf; unfold stepRDrop
     split
-    · exact safe_R_same ha hs hpc rfl rfl rfl rfl rfl (by okR_tac) (fun q' e => by cases e; exact hf)
+    · rename_i hp
+      exact safe_R_same ha hs hpc rfl rfl rfl rfl rfl (by okR_tac) (fun q' e => by cases e; exact ⟨hf.1, hf.2, hp⟩)
     · rB ha hs hpc hf.1
   case rHead x c =>
     cases h; simp only [rFact] at hf; unfold stepRHead
@@ -193,14 +194,15 @@ theorem safe_actR1 {s s' : State} {t r : Nat} {p : RPC} (ha : InvA s) (hl : LRI 
   case bDrop x c =>
     cases h; simp only [rFact] at hf; unfold stepBDrop
     split
-    · exact safe_R_same ha hs hpc rfl rfl rfl rfl rfl (by okR_tac) (fun q' e => by cases e; exact hf)
+    · rename_i hp
+      exact safe_R_same ha hs hpc rfl rfl rfl rfl rfl (by okR_tac) (fun q' e => by cases e; exact ⟨hf.1, hf.2, hp⟩)
     · rB ha hs hpc hf.1
   case bHd2 x c =>
     cases h; simp only [rFact] at hf; unfold stepBHd2
     split
     · r0 ha hs hpc
     · have h1 : c + min (s.head - c) (x.max.getD 1) ≤ s.core.head := by show _ ≤ s.head; omega
-      exact safe_R_same ha hs hpc rfl rfl rfl rfl rfl (by okR_tac) (fun q' e => by cases e; exact ⟨hf.1, hf.2, h1⟩)
+      exact safe_R_same ha hs hpc rfl rfl rfl rfl rfl (by okR_tac) (fun q' e => by cases e; exact ⟨hf.1, hf.2.1, h1⟩)
   case bVals x c k =>
     cases h; simp only [rFact] at hf
     obtain ⟨hb, hc, hle⟩ := hf
@@ -223,14 +225,23 @@ theorem safe_actR1 {s s' : State} {t r : Nat} {p : RPC} (ha : InvA s) (hl : LRI 
       exact safe_R_same ha hs hpc rfl rfl rfl rfl rfl (by okR_tac) (fun q' e => by cases e; exact hf)
     · cases h
   case gUnlock x c => cases h; simp only [rFact] at hf; rB ha hs hpc hf.1
-  case eDrop x => cases h; simp only [rFact] at hf; unfold stepEDrop; split <;> rB ha hs hpc hf
-  case eHead x => cases h; simp only [rFact] at hf; rB ha hs hpc hf
+  case eDrop x =>
+    cases h; simp only [rFact] at hf; unfold stepEDrop
+    split
+    · rename_i hp
+      exact safe_R_same ha hs hpc rfl rfl rfl rfl rfl (by okR_tac) (fun q' e => by cases e; exact ⟨hf, hp⟩)
+    · rB ha hs hpc hf
+  case eHead x =>
+    cases h; simp only [rFact] at hf
+    exact safe_R_same ha hs hpc rfl rfl rfl rfl rfl (by okR_tac) (fun q' e => by cases e; exact ⟨hf.1, hf.2, rfl⟩)
   case eCur x h0 =>
     cases h; simp only [rFact] at hf; unfold stepECur
     repeat' split
-    · exact safe_R_same ha hs hpc rfl rfl rfl rfl rfl (by okR_tac) (fun q' e => by cases e; exact ⟨hf, rfl⟩)
+    · rename_i hge _ _
+      have h1 : s.core.head ≤ s.cur r := by rw [← hf.2.2]; exact hge
+      exact safe_R_same ha hs hpc rfl rfl rfl rfl rfl (by okR_tac) (fun q' e => by cases e; exact ⟨hf.1, rfl, hf.2.1, h1⟩)
     · r0 ha hs hpc
-    · rB ha hs hpc hf
+    · rB ha hs hpc hf.1
   case eLock x c =>
     unfold stepELock at h; split at h
     · cases h; simp only [rFact] at hf
